@@ -5680,7 +5680,18 @@ impl GlobalInferenceCtx<'_> {
                     );
                     match &self.world_bodies[loc.file()][stmt] {
                         Stmt::Expr(_) => {}
-                        Stmt::LocalDef(_) => {}
+                        Stmt::LocalDef(local_def) => {
+                            // `x := ;` (a syntax error) has neither a value nor a type annotation.
+                            // there is no expression to trip over, but the local has no type
+                            if self.tys[loc]
+                                .local_tys
+                                .get(*local_def)
+                                .is_none_or(|ty| ty.is_unknown())
+                            {
+                                debug!("unsafe {} stmt#{}", loc.debug(self.interner), stmt.into_raw());
+                                return Ok(false);
+                            }
+                        }
                         Stmt::Assign(_) => {}
                         Stmt::Break { label, .. } | Stmt::Continue { label, .. } => {
                             if label.is_none() {
